@@ -201,8 +201,11 @@ class Elf(BinFormat):
     def getfileoffset(self, target):
         "converts given target virtual address back to offset in file"
         s, offset, base = self.getinfo(target)
-        if s != None:
-            result = s.p_offset + offset
+        if s is not None:
+            if isinstance(s, Phdr):
+                result = s.p_offset + offset
+            else:
+                result = s.sh_offset + offset
         else:
             result = None
         return result
